@@ -46,6 +46,10 @@ class DefinitionSyntaxError(errors.DefinitionSyntaxError, fp.ParsingError):
     def set_location(self, value: str) -> None:
         super().__setattr__("location", value)
 
+    def __reduce__(self):
+        # keep the location and the position of the offending statement
+        return self.__class__, (self.msg, self.location), {"_statement": self._statement}
+
 
 @dataclass(frozen=True)
 class ImportDefinition(fp.IncludeStatement[ParserConfig]):
